@@ -268,6 +268,57 @@ def getitem (offset : Nat) (a b : NT) : Option NT :=
         | none => XR.nan⟩
     else none
 
+/-! ### Operations on the output (event) axes: eager_reduction_tensor, eager_reshape_tensor, eager_getslice_tensor
+
+  These act on every batch row alike (`op(arg.data, axis=negative axes)`, `data.reshape(batch_shape + shape)`,
+  `data[(slice(None),) * len(inputs) + index]`): the named inputs are untouched and the event part is
+  transformed by the specification-level function of Model/Term.lean.  What the model adds is the
+  bookkeeping that keeps the event axes apart from the batch axes: reductions address the event axes
+  by NEGATIVE positions (`axis % ndims - ndims`). -/
+
+/-- Apply an event-level function to every row; the result shape is read off a probe row (it must
+    not depend on the data: `ShapeOnly` in Props/C01/Rows.lean). -/
+def mapRows (f : Sem → Option Sem) (a : NT) : Option NT :=
+  match f (a.row (a.inputs.map fun _ => 0)) with
+  | none => none
+  | some probe =>
+    some ⟨a.inputs, probe.shape, fun idx =>
+      match f (a.row (idx.take a.inputs.length)) with
+      | some s => s.get (idx.drop a.inputs.length)
+      | none => XR.nan⟩
+
+/-- eager_reshape_tensor (without the `arg.shape == shape` shortcut, which returns the same value). -/
+def reshape (newShape : List Nat) (a : NT) : Option NT := mapRows (fun s => s.reshape newShape) a
+
+/-- eager_getslice_tensor: basic indexing of the leading event axes. -/
+def getslice (items : List IdxItem) (a : NT) : Option NT := mapRows (fun s => s.getslice items) a
+
+def outReduceOps : List String := ["add", "mul", "max", "min", "and", "or"]
+
+/-- `axis % ndims - ndims`, as a (negative) position counted from the end of the full data array. -/
+def negAxis (ndims : Nat) (d : Int) : Int := d % (ndims : Int) - (ndims : Int)
+
+def axisValid (ndims : Nat) (d : Int) : Bool := decide (-(ndims : Int) ≤ d ∧ d < (ndims : Int))
+
+/-- eager_reduction_tensor (sum/prod/amax/amin/all/any with axis, keepdims), its three branches:
+    scalar output (unsqueeze, reduce the temporary axis: only `axis=None` is meaningful);
+    no inputs (`op(arg.data)` with the op's own parameters); batch inputs (negative axes). -/
+def reductionAxis (base : String) (axes : Option (List Int)) (keep : Bool) (a : NT) : Option NT :=
+  if !outReduceOps.contains base then none
+  else if a.shape.isEmpty then
+    match axes with
+    | none => mapRows (fun s => s.reduceAxes base none keep) a
+    | some _ => none
+  else if a.inputs.isEmpty then
+    mapRows (fun s => s.reduceAxes base axes keep) a
+  else
+    match axes with
+    | none => mapRows (fun s => s.reduceAxes base none keep) a
+    | some l =>
+      if l.all (axisValid a.shape.length) then
+        mapRows (fun s => s.reduceAxes base (some (l.map (negAxis a.shape.length))) keep) a
+      else none
+
 /-! ### The partial evaluator: eager interpretation on ground terms
 
   `peval t` applies, bottom-up, the eager rule that dispatch selects when every operand is already a
